@@ -72,6 +72,31 @@ type probe struct {
 	resp    []byte // what the handler wrote (plaintext)
 	status  int    // status the handler asked for (0 = implicit 200)
 	writes  int    // number of Write calls to use
+	// style != nil: the answer is produced through that writing style (crywrite_test.go)
+	// instead of plain Write calls; status is then ignored in favour of wopt.Status
+	style *wstyle
+	wopt  wopts
+	we    *wenv
+	werr  error // what the writing style returned
+}
+
+func (p *probe) styleName() string {
+	if p.style == nil {
+		return ""
+	}
+	o := p.wopt
+	if p.style.NoStatus {
+		o.Status = 0
+	}
+	return p.style.Name + o.tag()
+}
+
+// expected: the plaintext the handler handed to its ResponseWriter.
+func (p *probe) expected() []byte {
+	if p.style != nil && p.style.expect != nil {
+		return p.style.expect(p.resp)
+	}
+	return p.resp
 }
 
 // protected builds the handler put behind the gate. It reads the whole body,
@@ -90,7 +115,15 @@ func protected(p *probe) http.Handler {
 		p.body, p.bodyErr = b, err
 		p.method = r.Method
 		resp, st, writes := p.resp, p.status, p.writes
+		style, wopt, we := p.style, p.wopt, p.we
 		p.mu.Unlock()
+		if style != nil {
+			err := runStyle(w, r, style, wopt, resp, we)
+			p.mu.Lock()
+			p.werr = err
+			p.mu.Unlock()
+			return
+		}
 		if st != 0 {
 			w.WriteHeader(st)
 		}
